@@ -1,12 +1,12 @@
 SPECIFICATION Spec
 CONSTANTS
-  MaxNodes = 4
+  MaxNodes = 3
   MaxLines = 2
   MaxCols = 8
-  AllowZero = TRUE
-  AllowNoSep = TRUE
-  AllowWrap = FALSE
-  WarmModes <- MCWarmAll
+  AllowZero = FALSE
+  AllowNoSep = FALSE
+  AllowWrap = TRUE
+  WarmModes <- MCWarmModes
   GapAlpha <- MCGapAlpha
   RichAlpha <- MCRichAlpha
   InsAlpha <- MCInsAlpha
